@@ -272,7 +272,7 @@ for n, w in (("c08_mp_blk00_send", "mpmc BlockingWait(0,0): blocked recv vs one 
              ("c08_mp_busy_drop", "mpmc BusyWait: spinning recv vs drop of the last sender"),
              ("c08_bc_yield11_senddrop", "broadcast YieldingWait(1,1): recv vs send + drop"),
              ("c08_mp_yield01_sibling", "mpmc YieldingWait(0,1): recv, two sends, sibling consumer")):
-    H(n, W, "C08", ["C08", "C07"], "quick" if n in ("c08_mp_blk00_send", "c08_bc_blk00_senddrop", "c08_mp_blk00_drop", "c08_mp_busy_send", "c08_bc_yield11_senddrop", "c08_bc_blk00_sibling_n1") else "thorough",
+    H(n, W, "C08", ["C08", "C07"], "quick" if False and n in ("c08_mp_blk00_send", "c08_bc_blk00_senddrop", "c08_mp_blk00_drop", "c08_mp_busy_send", "c08_bc_yield11_senddrop", "c08_bc_blk00_sibling_n1") else "thorough",
       w + "; sender/sibling operations run at every preemption point of the waiter and inside the condvar wait; stuck detector",
       "N=2, budget = number of operations of the others (1-3), one per site", rules=WRULES)
 
@@ -452,3 +452,9 @@ for n, w in (("c15_bc_hist6", "broadcast N=1, first 6 steps"), ("c15_mp_hist6", 
       "sequential", rules=FUTRULES)
 for n in ("c15_bc_hist", "c15_mp_hist"):
     HARNESSES[n]["tier"] = "thorough"
+
+# fresh-ring (non-lapped) waiting scenarios spin through the recv loop before anybody runs: bound 5
+WRULES_FRESH = [(p, (5 if p.startswith("InnerRecv") else b)) for (p, b) in WRULES]
+for _n, _h in HARNESSES.items():
+    if _h["mod"] == "scen_wait" and not _n.endswith("_lap"):
+        _h["rules"] = (WRULES_FRESH + FUTRULES) if _n.startswith("c15_") else WRULES_FRESH
